@@ -172,7 +172,7 @@ func checkC12(c *RoundTripCase) (*ev.Failure, *execOutcome, string) {
 
 func TestC12(t *testing.T) {
 	rec := ev.Get("C12")
-	rec.Rule = "world x operation x store whose list lengths are drawn from {0,1,2,5,20} with repeated entities, plus the metamorphic partner in which every stored list is replicated x2..x6; oracle: per service the number of batched HTTP calls <= number of plan levels at which the service appears (plan from the real planner), identical for the replicated store, no two identical (entity, sub-query) lookups inside one batched call, and the answer still equals the reference (fan-out into every duplicate position); non-trivial = a child step fires below a list that holds a repeated entity; distinct by hash(case)"
+	rec.Rule = "world x operation x store whose list lengths are drawn from {0,1,2,5,20} with repeated entities, one directed case per run with 2049..6000 entries over 2..9 entities in one level (TestC12Huge), plus the metamorphic partner in which every stored list is replicated x2..x6; oracle: per service the number of batched HTTP calls <= number of plan levels at which the service appears (plan from the real planner), identical for the replicated store, no two identical (entity, sub-query) lookups inside one batched call, and the answer still equals the reference (fan-out into every duplicate position); non-trivial = a child step fires below a list that holds a repeated entity; distinct by hash(case)"
 	defer census.dump("C12")
 	rapid.Check(t, func(t *rapid.T) {
 		storeOverride = func(o *world.StoreOptions) {
@@ -241,4 +241,34 @@ func init() {
 		}
 		return f, nil
 	}
+}
+
+// TestC12Huge: one level with thousands of list entries over a handful of entities - still one batched call per
+// service and level, every entity looked up once.
+func TestC12Huge(t *testing.T) {
+	rec := ev.Get("C12")
+	rapid.Check(t, func(t *rapid.T) {
+		n := rapid.IntRange(2049, 6000).Draw(t, "entries")
+		k := rapid.IntRange(2, 9).Draw(t, "entities")
+		w := teardownWorld()
+		list := make([]interface{}, n)
+		for i := 0; i < k; i++ {
+			w.Store.Entities[fmt.Sprintf("Human_%d", i+1)] = &world.Entity{Type: "Human", Fields: map[string]interface{}{"name": fmt.Sprintf("n%d", i), "phone": fmt.Sprintf("p%d", i)}}
+		}
+		for i := range list {
+			list[i] = fmt.Sprintf("Human_%d", 1+(i*7+i/3)%k)
+		}
+		w.Store.Roots["Query.getHumans"] = list
+		c := &RoundTripCase{ExecCase: ExecCase{World: w, Op: opgen.Op{Query: "{ getHumans { name phone } }"}}, Replicate: 1}
+		ev.Current("C12", c)
+		f, _, class := checkC12(c)
+		if strings.HasPrefix(class, "skip:") {
+			t.Fatalf("the directed case is outside the domain: %s", class)
+		}
+		rec.Case(ev.Hash(n, k), true, "hugeLevel")
+		if f != nil {
+			ev.WriteFail("C12", c, f)
+			t.Fatalf("%v", f)
+		}
+	})
 }
